@@ -50,7 +50,7 @@ Verdict eval_c03(const Scene &s) {
             // With nudgeOrthogonalSegmentsConnectedToShapes the documentation allows nudging to move the end
             // segments (and with them the displayed end points); route() must still join the attachments.
             bool endsMayMove = !which && c.type == 2 && s.cfg.opt[Avoid::nudgeOrthogonalSegmentsConnectedToShapes];
-            std::string bad = routeInvalid(r, c.a, c.b, s.shapes, 1e-7, nullptr, endsMayMove);
+            std::string bad = routeInvalid(r, c.a, c.b, s.shapes, 1e-7, nullptr, endsMayMove, buf);
             if (!bad.empty()) {
                 // known finding F22: polyline routing among shapes whose (buffered) routing polygons touch or overlap
                 bool close = false;
@@ -61,6 +61,7 @@ Verdict eval_c03(const Scene &s) {
                 }
                 v.fail(fmt("connector %zu %s: %s; route %s", i, which ? "route()" : "displayRoute()", bad.c_str(), ptsStr(r).c_str()),
                        bad.find("[through two of its vertices]") != std::string::npos ? "F26-sight-line-through-two-vertices" :
+                       bad.find("mitred buffer polygon]") != std::string::npos ? "F37-endpoint-in-mitred-buffer-zone" :
                        ((close && c.type == 1) ? "F22-polyline-invalid-route-among-close-shapes" : "invalid-route"));
             }
         }
